@@ -207,5 +207,8 @@ func runControls() []string {
 	expect("typestate flags an operation after an error response", bad["operate-after-error"], true)
 	expect("typestate flags a second response", bad["second-response"], true)
 	expect("typestate accepts the correct handler", len(kinds("GoodHandler")) == 0, true)
+	// --- exact callee matching (who-may-call rules with expected count 0)
+	expect("a flat os.Remove is found", len(findCalls(fn("RemovesFlat"), false, "=os.Remove")) == 1, true)
+	expect("os.RemoveAll is not taken for os.Remove", len(findCalls(fn("RemovesTree"), false, "=os.Remove")) == 0, true)
 	return out
 }
